@@ -302,6 +302,17 @@ func replayOne(t *testing.T, rf *vstat.ReplayFile) string {
 			}
 		}
 		return ""
+	case rf.Part == "default":
+		var sc DefaultCase
+		if err := json.Unmarshal(rf.Scenario, &sc); err != nil {
+			return "bad default case: " + err.Error()
+		}
+		for i := 0; i < 5; i++ {
+			if _, err := runDefault(&sc); err != nil {
+				return err.Error()
+			}
+		}
+		return ""
 	case rf.Part == "closing":
 		var sc CloseCase
 		if err := json.Unmarshal(rf.Scenario, &sc); err != nil {
